@@ -242,6 +242,14 @@ def handler (op : String) (j : Json) : Option (R Json) :=
   | "io.genNum" => some do
     let s ← asSc (← j.getObjVal? "x")
     pure (jPyArg (genNum s))
+  | "io.names" => some do
+    -- the index parsers on symbol names: [measuredIndex, ptypeIndex] for each name, and the printed names of `i`
+    let ns ← getArr j "names"
+    let names ← ns.mapM (·.getStr?)
+    let is := getNatListD j "indices"
+    pure (Json.mkObj [
+      ("parsed", jarr (names.map fun n => jarr [optJ jnat (measuredIndex n), optJ jnat (ptypeIndex n)])),
+      ("printed", jarr (is.map fun i => jarr [Json.str (qName i), Json.str (pName i)]))])
   | "io.piString" => some do
     let m ← getInt j "m"
     pure (Json.str (piString m))
